@@ -156,7 +156,8 @@ Definition tstep (dg w : bool) (g : glob) (t : thread) : outcome :=
   | SA_lock m k =>
     match try_acq (bw g) m w with
     | Got => Next (set_bw g true) (set_pc t (SA_rel true k)) (AAcq Lbw m) RNone
-    | Failed => Next (set_cnt g ls_fail_reset) (set_pc t (SA_rel false k)) (AFail Lbw m) RNone
+    | Failed => Next (match ls_fail_reset with Some v => set_cnt g v | None => g end)
+                     (set_pc t (SA_rel false k)) (AFail Lbw m) RNone
     | Wait => Blocked Lbw
     end
   | SA_rel b k => kret (set_mx g false) t k b (ARel Lmx)
